@@ -30,6 +30,8 @@ pub fn std_res_spec() -> Vec<ResSpec> {
         ResSpec { name: "a", aliases: &["a-alias"], mime: Some("image/gif"), content_b64: b64("GIF89a"), permission: 0, redirectable_kind: true },
         ResSpec { name: "b", aliases: &[], mime: Some("application/javascript"), content_b64: b64("(function(){})()"), permission: 0, redirectable_kind: true },
         ResSpec { name: "perm", aliases: &[], mime: Some("application/javascript"), content_b64: b64("perm()"), permission: 1, redirectable_kind: true },
+        // a resource whose name contains the priority separator
+        ResSpec { name: "ns:a", aliases: &[], mime: Some("text/plain"), content_b64: b64("ns-a"), permission: 0, redirectable_kind: true },
         ResSpec { name: "fn", aliases: &[], mime: Some("fn/javascript"), content_b64: b64("function fn(){}"), permission: 0, redirectable_kind: false },
         ResSpec { name: "tpl", aliases: &[], mime: None, content_b64: b64("tpl({{1}})"), permission: 0, redirectable_kind: false },
     ]
